@@ -128,3 +128,31 @@ def c13_error_estimate(inp, obligation):
         return False, {"note": "reference with some zero components: outside the contract"}
     ok = got is not None and abs(float(got) - want) <= 1e-9 * max(1.0, abs(want))
     return (not ok), {"reference": ref.tolist(), "result": res.tolist(), "norm": inp["norm"], "reported": None if got is None else float(got), "expected": want, "expected_kind": kind}
+
+
+@handler("C13.local_error")
+def c13_local_error(inp, obligation):
+    """the real local error estimators on the counter-model's vectors (and a few more): normalised norm of the absolute values, never negative"""
+    import numpy as np
+    from types import SimpleNamespace as NS
+    from sparseSpACE.ErrorCalculator import ErrorCalculatorSingleDimVolumeGuided, ErrorCalculatorExtendSplit
+    kind, n = inp["estimator"], int(inp["n"])
+    norm = np.inf if inp["norm"] == "inf" else int(inp["norm"])
+    rng = np.random.RandomState(5)
+    cases = [{k: np.array([float(x) for x in v]) for k, v in inp["vectors"].items()}]
+    for _ in range(6):
+        cases.append({k: rng.uniform(-3, 3, n) * rng.choice([1.0, 1e-9, 1e6]) for k in inp["vectors"]})
+    bad = []
+    for vecs in cases:
+        if kind == "volume":
+            got = ErrorCalculatorSingleDimVolumeGuided().calc_error(NS(volume=vecs["vol"].copy()), norm)
+            dev = np.abs(vecs["vol"])
+        else:
+            cur = vecs["sib"] if kind == "extend-parent" else vecs["val"]
+            ro = NS(value=cur.copy(), sum_siblings=cur.copy(), switch_to_parent_estimation=(kind == "extend-parent"), parent_info=NS(previous_value=vecs["prev"].copy()))
+            got = ErrorCalculatorExtendSplit().calc_error(ro, norm)
+            dev = np.abs(cur - vecs["prev"])
+        want = (np.max(dev) if norm == np.inf else (np.sum(dev ** norm)) ** (1.0 / norm) / n ** (1.0 / norm))
+        if not (float(got) >= 0.0) or abs(float(got) - float(want)) > 1e-9 * max(1.0, abs(float(want))):
+            bad.append("%s estimator, norm %r, vectors %r: estimate %r, normalised norm of the absolute values %r" % (kind, inp["norm"], {k: v.tolist() for k, v in vecs.items()}, float(got), float(want)))
+    return bool(bad), {"violations": bad[:4]}
